@@ -249,6 +249,29 @@ func checkStageOrder(c *core.Ctx, r *core.Rule, h *handlerInfo) {
 			}
 		}
 	}
+	// the unsatisfied-requirement edge builds SecurityError
+	if h.requirement != nil {
+		found := false
+		for _, eb := range core.EdgeBlocks(h.requirement, false) {
+			for _, b := range h.fn.Blocks {
+				if !eb.Dominates(b) {
+					continue
+				}
+				for _, in := range b.Instrs {
+					if al, ok := in.(*ssa.Alloc); ok {
+						if _, n := core.NamedOf(al.Type().(*types.Pointer).Elem()); n == "SecurityError" {
+							found = true
+						}
+					}
+				}
+			}
+		}
+		if found {
+			r.Pass(h.key + ": unsatisfied security requirements build ogenerrors.SecurityError")
+		} else {
+			r.Fail(h.key+":stage-error:requirement", c.Pos(h.requirement.Pos()), "the unsatisfied-requirement edge does not build ogenerrors.SecurityError: a request without credentials is answered with the wrong status")
+		}
+	}
 	// stage error types on the failure edges
 	for _, g := range gates {
 		if g.call == nil {
